@@ -283,6 +283,18 @@ class Arr:
             r = arr_rank_set(it, self, key, val)
             if r is not NotImplemented:
                 return
+            if self.mask is True and z3.eq(z3.simplify(to_z(key, I)), self.space.i) and is_scalar(val):
+                # a[i] = v inside the generic iteration over the positions of this array: row i gets v (under the branch guards)
+                if it.ctx.merge_mode:
+                    if len(it.ctx.merge_guards) != it.ctx.merge_mode:
+                        raise CannotMerge()
+                    g = z3.And(*it.ctx.merge_guards) if it.ctx.merge_guards else z3.BoolVal(True)
+                    old = self.e
+                    it.ctx.undo.append((_ArrCell(self), "e", (True, old)))
+                    self.set_e(it, scalar_ite(SV(g), val, old)) if self.owner is None else (_ for _ in ()).throw(CannotMerge())
+                else:
+                    self.set_e(it, val)
+                return
         if isinstance(key, Arr):
             # scatter a[idx] = v : recorded as a guarded functional update for the generic row of `key`'s space
             raise EngineError("scatter store into a 1-D generic array is not modelled")
@@ -979,6 +991,26 @@ class GenericSet:
 
     def make_like(self, e):
         raise EngineError("comprehension over a generic set")
+
+
+class _ArrCell:
+    """undo-log adapter for a guarded store into an array inside a speculatively executed branch"""
+
+    def __init__(self, arr):
+        self.arr = arr
+        self.e = _ArrCellDict(arr)
+
+
+class _ArrCellDict(dict):
+    def __init__(self, arr):
+        dict.__init__(self)
+        self.arr = arr
+
+    def __setitem__(self, k, v):
+        self.arr._e = v[1] if isinstance(v, tuple) else v
+
+    def pop(self, k, default=None):
+        return None
 
 
 class BroadcastList:
